@@ -282,6 +282,9 @@ def analyse29(ck):
         okd = guards._zero_defs(fv.body)
         okblocks = [bi for bi, lst in okd.items() if "ok" in lst or "ok?" in lst]
         ok = len(vcall) == 1 and guards.continue_block(fv.body, vcall[0][0]) is not None and bool(okblocks) and all(cfg.dominates(fv.body, guards.continue_block(fv.body, vcall[0][0]), bi) for bi in okblocks)
+        if not ok and len(vcall) == 1:
+            # `self.validate().map(|()| self)`: the value is handed back through the validation's own Result
+            ok = fv.ok_only_via(vcall[0][0])
         ob.add({"C29"}, ok and okc, "DOM", "config/" + fn, "CircuitBinsConfig::%s returns Ok only after validate() (which validates both counts) succeeded" % fn, fv.loc0)
     # the derived Deserialize field visitor maps both key names to the same field
     mapping = {}
